@@ -38,7 +38,7 @@ ASSUMPTIONS = [
     "environment model bound to real sockets by ./check selftest",
 ]
 BOUNDS_DOC = {"quick": "pipelines <=2 (+ a set of triples), boundary-lattice splits, M<=1 S<=2", "thorough": "all pairs and triples, every split point of pairs, M<=2 S<=3, trio R<=1"}
-BUDGET = {"quick": 100, "thorough": 1500}
+BUDGET = {"quick": 300, "thorough": 1800}
 
 SHAPES = {
     # name: (method, version, connection header, body kind)
